@@ -26,7 +26,7 @@ type gridIRI struct {
 var (
 	c14Schemes = []string{"http", "https", "HTTPS"}
 	c14Hosts   = []string{"example.com", "EXAMPLE.com", "example.com:8080", "sub.example.com", "other.org"}
-	c14Paths   = []string{"", "/", "/a", "/A", "/a/", "/a/b", "/a/./b", "/a/c/../b", "/a//b", "/a/b/c", "/.", "//", "/proxy/https://remote.example/actor"}
+	c14Paths   = []string{"", "/", "/a", "/A", "/a/", "/a/b", "/a/./b", "/a/c/../b", "/a//b", "/a/b/c", "/.", "//", "/proxy/https://remote.example/actor", "/../a", "/a/../../b", "/.."}
 	c14Queries = []string{"", "?x=1", "?x=2", "?x=1&y=2", "?y=2&x=1", "?x=1&x=2", "?x=2&x=1", "?x=1&x=1", "?x=", "?x=1&y=2&z=3", "?iri=https://remote.example/actor", "?next=/home", "?next=/home/",
 		// other spellings of the same parameters: a key without '=', a trailing and a doubled separator, a space as + and as %20
 		"?x", "?y=2&x=1&", "?x=1&&y=2", "?q=a+b", "?q=a%20b"}
